@@ -5,3 +5,6 @@ import PvModel.Props.C04
 #print axioms Pv.C04_disj_perm
 #print axioms Pv.C04_tree
 #print axioms Pv.C04_fd_conj_comm
+#print axioms Pv.C04_engine_sound
+#print axioms Pv.C04_program_comm
+#print axioms Pv.C04_program_congr
